@@ -111,6 +111,32 @@ theorem normalizer_negative_regularization_differs :
       ∧ (OpExpr.normalizer ⟨1, 2, [[2, 2]]⟩ (-2)).denote.mulVec [1, 0] = [1/2] := by
   decide +kernel
 
+/-! ## one operator object used twice (finding F16i, recorded and not repaired) -/
+
+/-- the property for an expression that mentions ONE CoNeighbor object twice (`c - c`, `c + (-c)`, `c * 2 + c`):
+what Python computes (`Op.shared`: `__neg__` / `__mul__` work in place and return the operand) should be the
+product by the dense matrix the expression denotes -/
+def shared_operand_full : Prop :=
+  ∀ (p : SharedPattern) (a : Mat) (nz : Bool) (c : CoNeighbor), CoNeighbor.init a nz = .ok c →
+    ∀ v : Vec, v.length = a.nRow → (Op.shared p c).matvec v = (OpExpr.sharedPattern p a nz).denote.mulVec v
+
+/-- **it is false on the pinned and on the repaired tree**: with `c = CoNeighbor([[1,2,0],[0,1,1]])`,
+`(c - c).dot([1, 0])` is `-2 M x = [-14/3, -4/3]`, not `0` (replayed on the implementation: corpus/C15.jsonl,
+KNOWN-FINDING F16i; `test_coneighbors` of the repository relies on the in-place semantics) -/
+theorem shared_operand_full_false : ¬ shared_operand_full := by
+  intro h
+  have := h .sub ⟨2, 3, [[1, 2, 0], [0, 1, 1]]⟩ true _ rfl [1, 0] rfl
+  revert this
+  decide +kernel
+
+/-- **what holds** (`…_partial`): when the two mentions are two separate objects — i.e. for operator expressions
+as trees, which is what `denote_op` is about — the product is the product by the denoted matrix. Missing with respect
+to `shared_operand_full`: object identity; the repair (pure `__neg__` / `__mul__`) would contradict the repository's own test. -/
+theorem shared_operand_partial (p : SharedPattern) (a : Mat) (nz : Bool) (o : Op)
+    (h : (OpExpr.sharedPattern p a nz).eval = .ok o) (v y : Vec) (hy : o.dot v = .ok y) :
+    y = (OpExpr.sharedPattern p a nz).denote.mulVec v :=
+  denote_op_dot _ (by cases p <;> rfl) o h v y hy
+
 /-! ## which expressions evaluate, which are refused -/
 
 /-- **Static typing is exact.** `OpExpr.type?` computes, from the classes and shapes alone (plus `check_format`'s
